@@ -126,6 +126,21 @@ def einsum (ops : List (T × List Nat)) (out : List Nat) : M T := do
         | none => sidx.getD (summed.idxOf l) 0
       acc + ops.foldl (fun (p : Poly) (t, idx) => p * t.get (idx.map val)) 1) 0
 
+
+/-- exponent vectors of all monomials of degree ≤ p in n variables, in nutils_poly's reverse lexicographic order -/
+def polyPowers : Nat → Nat → List (List Nat)
+  | 0, _ => [[]]
+  | n + 1, p => (List.range (p + 1)).reverse.flatMap fun kl => (polyPowers n (p - kl)).map (· ++ [kl])
+
+def polyNCoeffs (nvars degree : Nat) : Nat := (polyPowers nvars degree).length
+
+/-- degree of a polynomial in `nvars` variables with `ncoeffs` coefficients (none if no such degree) -/
+def polyDegree? (ncoeffs nvars : Nat) : Option Nat :=
+  (List.range (ncoeffs + 1)).find? fun p => polyNCoeffs nvars p == ncoeffs
+
+def monomialAt (x : List Poly) (pw : List Nat) : Poly :=
+  (x.zip pw).foldl (fun acc (xi, k) => acc * Poly.npow xi k) 1
+
 def stableArgsort (l : List Int) : List Nat :=
   let indexed := l.zipIdx
   (indexed.mergeSort fun a b => a.1 < b.1 || (a.1 == b.1 && a.2 ≤ b.2)).map (·.2)
@@ -361,6 +376,91 @@ partial def evalNode (env : Env) (n : Node) : M T := do
       | s => do let p ← (← evalArg env s).toNats; pure (p.data.toList.map fun k => v.data.getD k 0)
     pure (ofInts x.shape (x.data.toList.map fun z =>
       ((sorted.filter fun w => if side == "left" then w < z else w ≤ z).length : Int)))
+  | "AssertEqual", [a, b] => do
+    let x ← evalArg env a; let y ← evalArg env b
+    if x.shape == y.shape && x.data.toList == y.data.toList then pure x else bad "AssertEqual: operands differ"
+  | "PolyNCoeffs", [.int nv, d] => do
+    let deg ← evalNat env d
+    pure (Tensor.scalar (Poly.ofInt (polyNCoeffs nv.toNat deg)))
+  | "PolyDegree", [nc, .int nv] => do
+    let n ← evalNat env nc
+    match polyDegree? n nv.toNat with
+    | some p => pure (Tensor.scalar (Poly.ofInt p))
+    | none => bad s!"PolyDegree: {n} coefficients is not a valid count for {nv} variables"
+  | "Polyval", [cf, pts] => do
+    let c ← evalArg env cf; let x ← evalArg env pts
+    if c.ndim == 0 || x.ndim == 0 then bad "Polyval: 0-d operand" else
+    let nv := x.shape.getLastD 0
+    match polyDegree? (c.shape.getLastD 0) nv with
+    | none => bad "Polyval: invalid number of coefficients"
+    | some p =>
+      let pws := polyPowers nv p
+      let np := x.ndim - 1
+      pure (Tensor.ofFn (x.shape.dropLast ++ c.shape.dropLast) fun idx =>
+        let xi := (List.range nv).map fun v => x.get (idx.take np ++ [v])
+        pws.zipIdx.foldl (fun (acc : Poly) (pw, k) => acc + c.get (idx.drop np ++ [k]) * monomialAt xi pw) 0)
+  | "PolyGrad", [cf, .int nv] => do
+    let c ← evalArg env cf
+    let nv := nv.toNat
+    if c.ndim == 0 then bad "PolyGrad: 0-d operand" else
+    match polyDegree? (c.shape.getLastD 0) nv with
+    | none => bad "PolyGrad: invalid number of coefficients"
+    | some p =>
+      let pws := polyPowers nv p
+      let out := polyPowers nv (p - 1)
+      let nc := c.ndim - 1
+      pure (Tensor.ofFn (c.shape.dropLast ++ [nv, out.length]) fun idx =>
+        let v := idx.getD nc 0
+        let pw := out.getD (idx.getD (nc+1) 0) []
+        if p == 0 then 0 else
+        let src := pw.set v (pw.getD v 0 + 1)
+        match pws.idxOf? src with
+        | some k => Poly.ofInt (pw.getD v 0 + 1) * c.get (idx.take nc ++ [k])
+        | none => 0)
+  | "PolyMul", [cl, cr, .list vars, _, _] | "PolyMul", [cl, cr, .list vars] => do
+    let l ← evalArg env cl; let r ← evalArg env cr
+    let vs ← vars.mapM fun | .str s => pure s | _ => bad "PolyMul vars"
+    let nl := (vs.filter (· != "Right")).length
+    let nr := (vs.filter (· != "Left")).length
+    if l.ndim == 0 || r.ndim == 0 || l.shape.dropLast != r.shape.dropLast then bad "PolyMul: operand shapes" else
+    match polyDegree? (l.shape.getLastD 0) nl, polyDegree? (r.shape.getLastD 0) nr with
+    | some pl, some pr =>
+      let embed (side : String) (pw : List Nat) : List Nat :=
+        (vs.foldl (fun (st : List Nat × List Nat) v => if v == side then (st.1 ++ [0], st.2) else (st.1 ++ [st.2.headD 0], st.2.tail)) ([], pw)).1
+      let lp := (polyPowers nl pl).map (embed "Right")
+      let rp := (polyPowers nr pr).map (embed "Left")
+      let out := polyPowers vs.length (pl + pr)
+      let nc := l.ndim - 1
+      pure (Tensor.ofFn (l.shape.dropLast ++ [out.length]) fun idx =>
+        let k := out.getD (idx.getD nc 0) []
+        lp.zipIdx.foldl (fun (acc : Poly) (a, ia) =>
+          rp.zipIdx.foldl (fun (acc : Poly) (b, ib) =>
+            if List.zipWith (· + ·) a b == k then acc + l.get (idx.take nc ++ [ia]) * r.get (idx.take nc ++ [ib]) else acc) acc) 0)
+    | _, _ => bad "PolyMul: invalid number of coefficients"
+  | "Legendre", [x, .int deg] => do
+    let t ← evalArg env x
+    let n := deg.toNat
+    pure (Tensor.ofFn (t.shape ++ [n+1]) fun idx =>
+      let xv := t.get idx.dropLast
+      let k := idx.getLastD 0
+      -- P0 = 1, P1 = x, (m+1) P_{m+1} = (2m+1) x P_m - m P_{m-1}
+      let ps := (List.range k).foldl (fun (st : Poly × Poly × Nat) _ =>
+        let (pm1, pm, m) := st
+        (pm, Poly.scale (1 / ((m : Rat) + 1)) (Poly.scale (2 * (m : Rat) + 1) (xv * pm) - Poly.scale (m : Rat) pm1), m + 1)) ((0 : Poly), (1 : Poly), 0)
+      ps.2.1)
+  | "Monomial", [v, .list args, .list inds, _] => do
+    let vals ← evalArg env v
+    if vals.ndim != 1 then bad "Monomial: values not 1-d" else
+    if args.length != inds.length then bad "Monomial: args/indices length" else
+    let n := vals.shape.getD 0 0
+    let fs ← (args.zip inds).mapM fun (a, is) => do
+      let t ← evalArg env a
+      let its ← match is with | .list l => l.mapM (fun i => do (← evalArg env i).toNats) | _ => bad "Monomial indices"
+      if its.length != t.ndim || its.any (·.shape != [n]) then bad "Monomial: index rank/shape" else
+      if (its.zip t.shape).any (fun (it, m) => it.data.any (· ≥ m)) then bad "Monomial: index out of range" else
+      pure (t, its)
+    pure (Tensor.ofFn [n] fun idx => fs.foldl (fun (acc : Poly) (t, its) => acc * t.get (its.map (·.get idx))) (vals.get idx))
+  | "Singular", _ => .error (.undefined "Singular")
   | cls, args => do
     match unaryName cls, binaryName cls, args with
     | some f, _, [a] => do mapApp f [← evalArg env a]
